@@ -1,5 +1,6 @@
 /- C16 — the fee recurrence of a found payment path.
    `recompute` mirrors lightning/src/routing/router.rs PaymentPath::update_value_and_recompute_fees
+   (as of /repo commit 2ea5edc: the upstream amounts include the final-hop raise)
    statement by statement (the loop runs payee → payer; here it is the evaluation order of a
    structural recursion over the hop list, payer side first).  The per-hop fee is the GENERATED
    `Ldk.Router.compute_fees` (Generated/RouterFees.lean, re-translated from the Rust source every run). -/
@@ -37,8 +38,10 @@ structure HopOut where
 def hopStep (value : Nat) (h : FeeHop) (lastHop : Bool) (st : St) : HopOut :=
   -- let mut cur_hop_fees_msat = 0; if !last_hop { cur_hop_fees_msat = hops[i+1].hop_use_fee_msat; }
   let curHopFees := if lastHop then 0 else st.nextUseFee
-  -- let mut cur_hop_transferred_amount_msat = total_fee_paid_msat + value_msat;
-  let amt0 := st.totalFeePaid + value
+  -- let mut cur_hop_transferred_amount_msat = total_fee_paid_msat + value_msat + extra_contribution_msat;
+  -- (extra_contribution_msat is still 0 in the final hop's iteration; it is set there)
+  -- GENERATED from that statement (Generated/RouterFees.lean), so a change of it changes this model
+  let amt0 := cur_hop_transferred_amount_msat st.totalFeePaid value st.extra
   -- if let Some(extra_fees_msat) = htlc_minimum_msat().checked_sub(cur_hop_transferred_amount_msat)
   match chkSub h.htlcMin amt0 with
   | some extraFees =>
@@ -88,13 +91,11 @@ def htlcAmounts : List Nat → List Nat
   | [] => []
   | f :: rest => (f + (htlcAmounts rest).headD 0) :: htlcAmounts rest
 
-/-- "hop k+1's forwarding node is paid its policy fee": for consecutive hops, the amount entering the
-    node exceeds the amount leaving it by at least `compute_fees` of the amount forwarded less
-    `slack` (slack = 0 is the property; see C16.recompute_fees_sound for the slack the code leaves) -/
-def MarginsOK (slack : Nat) : List FeeHop → List Nat → Prop
+/-- "every forwarding node is paid its policy fee": for consecutive hops, the amount entering the
+    node exceeds the amount leaving it by at least `compute_fees` of the amount it forwards -/
+def MarginsOK : List FeeHop → List Nat → Prop
   | _ :: h' :: hs, a :: a' :: as =>
-      (∃ f, compute_fees (a' - (if hs.isEmpty then 0 else slack)) h'.base h'.prop = some f ∧ a' + f ≤ a) ∧
-      MarginsOK slack (h' :: hs) (a' :: as)
+      (∃ f, compute_fees a' h'.base h'.prop = some f ∧ a' + f ≤ a) ∧ MarginsOK (h' :: hs) (a' :: as)
   | _, _ => True
 
 /-- every hop carries at least its channel's `htlc_minimum_msat` -/
@@ -102,15 +103,13 @@ def MinsOK : List FeeHop → List Nat → Prop
   | h :: hs, a :: as => h.htlcMin ≤ a ∧ MinsOK hs as
   | _, _ => True
 
-/-- exactness: with `E` the final-hop raise, the amount the code tracked for a non-final hop is `a - E`
-    (`a` itself for the final hop); each tracked amount is exactly the larger of the hop's own minimum
-    and what the next hop receives plus that hop's policy fee — so whatever an amount was raised by is
+/-- exactness: each amount is exactly the larger of the hop's own minimum and what the next hop
+    receives plus that hop's policy fee — so whatever an amount was raised by to meet a minimum is
     contained in the `fee_msat` of the hop (`a = fee_msat + a'`), i.e. reported as fee. -/
-def ExactOK (E : Nat) : List FeeHop → List Nat → Prop
+def ExactOK : List FeeHop → List Nat → Prop
   | h :: h' :: hs, a :: a' :: as =>
-      (∃ f, compute_fees (a' - (if hs.isEmpty then 0 else E)) h'.base h'.prop = some f ∧
-            E ≤ a ∧ E ≤ a' ∧ a - E = max h.htlcMin (a' - E + f)) ∧
-      ExactOK E (h' :: hs) (a' :: as)
+      (∃ f, compute_fees a' h'.base h'.prop = some f ∧ a = max h.htlcMin (a' + f)) ∧
+      ExactOK (h' :: hs) (a' :: as)
   | _, _ => True
 
 end Ldk.RouteFees
